@@ -23,7 +23,7 @@ SPEC = {
              '(file, txn) where >=2 rules contribute tags or a tag-only rule matches together with a categorizing rule; distinct by digest'),
     'exhaustive': {'quick': False, 'thorough': False},
     'required_counters': ['ref_tag_checks', 'permutation_tag_checks', 'mode_tag_checks', 'neutrality_remove_checks',
-                          'neutrality_insert_checks', 'production_tag_checks', 'csv_tag_checks', 'parse_generic_csv_tag_checks'],
+                          'neutrality_insert_checks', 'production_tag_checks', 'csv_tag_checks', 'parse_generic_csv_tag_checks', 'tags_after_analysis_checks'],
     'assumptions': ['dynamic tags evaluate to strings or non-zero numbers (lists, booleans and 0 are not defined by the statement)',
                     'conditions are well-typed; letters have a simple case mapping'],
 }
@@ -189,6 +189,21 @@ def judge_parse_generic(rec, rf, rows, tmp, rnd, ptxns=None):
             rec.violation('parsed-transaction-tags-differ-from-union',
                           f'{sorted(o["tags"])} vs {sorted(ref["tags"])} for {t2["description"]!r} field={t2["field"]}', case)
             break
+    else:
+        # ... and the analysis step that follows in `tally up` leaves every transaction's own tag set as it is
+        from tally.analyzer import analyze_transactions
+        before = [set(o['txn'].get('tags') or []) for o in out]
+        try:
+            analyze_transactions([o['txn'] for o in out])
+        except Exception as e:
+            rec.violation('impl-raises:' + type(e).__name__, f'analyze_transactions: {e}', case)
+            return
+        rec.count('tags_after_analysis_checks')
+        for b4, o, t2 in zip(before, out, ptxns):
+            now = set(o['txn'].get('tags') or [])
+            if now != b4:
+                rec.violation('analysis-changes-transaction-tags', f'{t2["description"]!r}: tags {sorted(b4)} before analyze_transactions, {sorted(now)} after', case)
+                break
 
 
 def tag_heavy(gen, rnd):
